@@ -476,7 +476,8 @@ var c14Entries = []string{"fact", "rule", "check", "policy", "block", "authorize
 func mustErrorText(t *rapid.T) (gen.TextCase, string) {
 	why := rapid.SampledFrom([]string{"unbound-parameter-in-predicate", "unbound-parameter-in-expression", "date-without-zone-in-predicate",
 		"date-without-zone-in-expression", "date-month-13", "bytes-odd-digits", "bytes-non-hex-tail", "variable-in-set-in-predicate",
-		"variable-in-set-in-expression", "chained-comparison", "chained-equality", "bytes-odd-digits-in-expression"}).Draw(t, "why")
+		"variable-in-set-in-expression", "chained-comparison", "chained-equality", "bytes-odd-digits-in-expression",
+		"variable-in-set-through-parameter-in-predicate", "variable-in-set-through-parameter-in-expression"}).Draw(t, "why")
 	bad := map[string]string{
 		"unbound-parameter-in-predicate":  `{missing}`,
 		"unbound-parameter-in-expression": `{missing}`,
@@ -490,6 +491,9 @@ func mustErrorText(t *rapid.T) (gen.TextCase, string) {
 		"variable-in-set-in-expression":   `[$v]`,
 		"chained-comparison":              `1 < $x < 3`,
 		"chained-equality":                `$a == $b == true`,
+		// the parameter is bound, but to a variable: after substitution the set holds a variable
+		"variable-in-set-through-parameter-in-predicate":  `[1, {pvar}]`,
+		"variable-in-set-through-parameter-in-expression": `[{pvar}]`,
 	}[why]
 	inExpr := strings.Contains(why, "expression") || strings.HasPrefix(why, "chained")
 	entry := rapid.SampledFrom([]string{"rule", "check", "policy", "block", "authorizer"}).Draw(t, "entry")
@@ -530,7 +534,7 @@ func mustErrorText(t *rapid.T) (gen.TextCase, string) {
 	default:
 		text = "ok(1); allow if " + body + "; deny if true;"
 	}
-	return gen.TextCase{Entry: entry, Text: text, Params: map[string]m.Term{"present": m.Int(1)}}, why
+	return gen.TextCase{Entry: entry, Text: text, Params: map[string]m.Term{"present": m.Int(1), "pvar": m.Var("x")}}, why
 }
 
 // corrupt applies token-level corruptions to a grammatical text.
@@ -593,7 +597,7 @@ func drawC14(t *rapid.T) C14Case {
 func TestC14(t *testing.T) {
 	rec := obs.New("C14")
 	defer rec.Flush(true)
-	rec.SetExtra("rule", "rapid, three classes. grammar (60 %): texts generated from the documented grammar for the six entry points (fact, rule, check, policy, block, authorizer), each reached through the long-lived Parser value, FromString*WithParams, FromString* (no parameter map) or the Must() parser (whose documented panic-with-error counts as the error) with random layout (blanks, tabs, newlines between any two tokens unless they would merge), expressions generated by precedence level with explicit parentheses (nesting <= 5), method calls, 'or' alternatives, parameters of every term type bound in a parameter map, sets, dates with Z / numeric offsets / fractions, upper- and lower-case hex, leading comments; oracle = the structure computed by the generator (own postfix emission, grouping markers, dates as instants) must equal the parsed structure exactly. must-error (20 %): unbound parameter, zone-less or month-13 date, odd-length or non-hex byte literal, variable inside a set (each in a predicate and inside an expression), chained comparison / equality, in every entry point; oracle = an error is returned. robust (20 %): arbitrary strings and token-level corruptions (delete, duplicate, swap, insert punctuation, truncate) of grammatical texts; oracle = no panic in any parse function, and every successfully parsed element can be added to a Builder, a BlockBuilder and an authorizer (element by element and as one ParsedBlock / ParsedAuthorizer value through AddBlock / AddAuthorizer), the token built and authorized, without panic. Non-trivial (grammar) = the text has an expression with operators of two precedence levels, a method call, a parameter or a set; distinct by text.")
+	rec.SetExtra("rule", "rapid, three classes. grammar (60 %): texts generated from the documented grammar for the six entry points (fact, rule, check, policy, block, authorizer), each reached through the long-lived Parser value, FromString*WithParams, FromString* (no parameter map) or the Must() parser (whose documented panic-with-error counts as the error) with random layout (blanks, tabs, newlines between any two tokens unless they would merge), expressions generated by precedence level with explicit parentheses (nesting <= 5), method calls, 'or' alternatives, parameters of every term type bound in a parameter map, sets, dates with Z / numeric offsets / fractions, upper- and lower-case hex, leading comments; oracle = the structure computed by the generator (own postfix emission, grouping markers, dates as instants) must equal the parsed structure exactly. must-error (20 %): unbound parameter, zone-less or month-13 date, odd-length or non-hex byte literal, variable inside a set, written directly or arriving through a parameter bound to a variable (each in a predicate and inside an expression), chained comparison / equality, in every entry point; oracle = an error is returned. robust (20 %): arbitrary strings and token-level corruptions (delete, duplicate, swap, insert punctuation, truncate) of grammatical texts; oracle = no panic in any parse function, and every successfully parsed element can be added to a Builder, a BlockBuilder and an authorizer (element by element and as one ParsedBlock / ParsedAuthorizer value through AddBlock / AddAuthorizer), the token built and authorized, without panic. Non-trivial (grammar) = the text has an expression with operators of two precedence levels, a method call, a parameter or a set; distinct by text.")
 	rec.SetExtra("assumptions", []string{"identifiers follow the lexer's rule and avoid the prefixes the lexer reserves (prefix, suffix, matches, length, contains, true, false, hex:); integers are written in canonical decimal; strings contain no quote or backslash", "time.Parse(RFC3339) is a shared primitive"})
 	harness.RunWith(t, harness.Spec[C14Case]{ID: "C14", Draw: drawC14, Check: checkC14}, rec)
 }
